@@ -148,39 +148,35 @@ def shared_cycle(cfg, s, name):
     (the object stored at `s` in one iteration is the object stored in the next).
     Returns (set of node ids, witness path ids) - empty set when no such cycle."""
     fwd = {s.id: None}
+    back = None
     work = [s.id]
     while work:
         x = work.pop()
-        nx = cfg.nodes[x]
-        if x != s.id and rebinds(nx, name):
+        if x != s.id and rebinds(cfg.nodes[x], name):
             continue                      # cannot pass through a re-binding
-        for (d, lab) in cfg.succ[x]:
-            if cfg.nodes[d].kind == "iter" and x == d:
-                continue
-            if nx.kind == "iter" and lab != "iter" and False:
-                continue
-            if d == s.id:
-                fwd.setdefault("back", x)
+        for (d, _lab) in cfg.succ[x]:
+            if d == s.id and back is None:
+                back = x
             if d not in fwd:
                 fwd[d] = x
                 work.append(d)
-    if "back" not in fwd:
+    if back is None:
         return set(), []
     # backward: nodes from which s is reached without passing a re-binding
     bwd = {s.id}
     work = [s.id]
     while work:
         x = work.pop()
-        for (p, lab) in cfg.pred[x]:
+        for (p, _lab) in cfg.pred[x]:
             if p in bwd:
                 continue
             if p != s.id and rebinds(cfg.nodes[p], name):
                 continue
             bwd.add(p)
             work.append(p)
-    on = {x for x in fwd if x != "back" and x in bwd and (x == s.id or not rebinds(cfg.nodes[x], name))}
+    on = {x for x in fwd if x in bwd and (x == s.id or not rebinds(cfg.nodes[x], name))}
     path = [s.id]
-    x = fwd["back"]
+    x = back
     seen = set()
     while x is not None and x not in seen:
         seen.add(x)
@@ -190,64 +186,1193 @@ def shared_cycle(cfg, s, name):
     return on, path
 
 
-def r9_candidates(fn):
-    """(store node, name, how, creating nodes) for every insertion, inside a loop, of a plain name that
-    may hold a container created by this function."""
+def on_cycle(cfg, n) -> bool:
+    seen = set()
+    work = [d for (d, _l) in cfg.succ[n.id]]
+    while work:
+        x = work.pop()
+        if x == n.id:
+            return True
+        if x in seen:
+            continue
+        seen.add(x)
+        work.extend(d for (d, _l) in cfg.succ[x])
+    return False
+
+
+def creators_of(cfg, rd, n, name):
+    out = []
+    for d in rd.get(n.id, {}).get(name, ()):
+        if d < 0:
+            continue
+        v = def_value(cfg.nodes[d], name)
+        if v is not None and fresh_mutable(v):
+            out.append(cfg.nodes[d])
+    return out
+
+
+def r9_alias(fn, r, n, name, how, creators, what="stored"):
+    """The R9 test for one (store node, name).  Returns True when it holds."""
+    cfg = fn.cfg()
+    on, path = shared_cycle(cfg, n, name)
+    r.count(len(on) + 1)
+    if not on:
+        return True           # re-bound on every way round the loop
+    muts = [cfg.nodes[i] for i in sorted(on) if mutates(cfg.nodes[i], name)]
+    if not muts:
+        return True           # a constant shared object: harmless as long as nobody mutates it
+    w = ["L%d %r" % (cfg.nodes[i].lineno, cfg.nodes[i]) for i in path]
+    r.violation(fn, fn.loc(n.ast),
+                "loop-escape alias: `%s` (created at line %s) is %s by %s in every iteration and mutated at line %s "
+                "while no path round the loop re-binds it - all iterations share one object" % (
+                    name, ",".join(str(c.lineno) for c in creators) or "?", what, how,
+                    ",".join(str(m.lineno) for m in muts)), w)
+    return False
+
+
+def r9_sweep(fn, r) -> int:
+    """R9 over every insertion, inside a loop, of a plain name that may hold a container created by fn."""
     cfg = fn.cfg()
     rd = C.reaching_defs(cfg)
     reach = cfg.reachable_nodes()
-    out = []
+    k = 0
     for n in cfg.stmt_nodes():
         if n.id not in reach:
             continue
         for (name, how) in escaping_stores(n):
-            ds = rd.get(n.id, {}).get(name)
-            if not ds:
+            cr = creators_of(cfg, rd, n, name)
+            if not cr or not on_cycle(cfg, n):
                 continue
-            creators = []
-            for d in ds:
-                if d < 0:
-                    continue
-                v = def_value(cfg.nodes[d], name)
-                if v is not None and fresh_mutable(v):
-                    creators.append(cfg.nodes[d])
-            if not creators:
+            k += 1
+            r.site(fn, n.ast, "%s -> %s" % (name, how))
+            r9_alias(fn, r, n, name, how, cr)
+    return k
+
+
+# ============================================================ small utilities
+def names_loaded(e):
+    return {x.id for x in own_nodes(e, into_lambda=True) if isinstance(x, ast.Name) and isinstance(x.ctx, ast.Load)}
+
+
+def unwrap(e, tails=("list", "set", "sorted", "tuple", "frozenset", "iter")):
+    """Strip order/representation-only wrappers: list(x) -> x."""
+    while isinstance(e, ast.Call) and isinstance(e.func, ast.Name) and e.func.id in tails and len(e.args) == 1 \
+            and not e.keywords:
+        e = e.args[0]
+    return e
+
+
+def unwrap_view(e):
+    """x.items()/x.keys()/list(x.items()) -> (x, 'items'|'keys'|'values'|None)."""
+    e = unwrap(e)
+    if isinstance(e, ast.Call) and isinstance(e.func, ast.Attribute) and e.func.attr in ("items", "keys", "values") \
+            and not e.args:
+        return e.func.value, e.func.attr
+    return e, None
+
+
+class Flow:
+    """Flow-sensitive resolution of plain names through unique reaching definitions."""
+
+    def __init__(self, fn):
+        self.fn = fn
+        self.cfg = fn.cfg()
+        self.rd = C.reaching_defs(self.cfg)
+        self.params = list(fn.params)
+
+    def node_of(self, sub) -> Node:
+        for n in self.cfg.nodes:
+            for e in node_exprs(n):
+                for x in own_nodes(e, into_lambda=True):
+                    if x is sub:
+                        return n
+        raise AnchorVanished("expression not found in the CFG of %s" % self.fn.qual)
+
+    def unique_def(self, n, name):
+        """(def node, value) when exactly one non-parameter definition reaches n."""
+        ds = self.rd.get(n.id, {}).get(name)
+        if not ds or len(ds) != 1:
+            return None, None
+        (d,) = tuple(ds)
+        if d < 0:
+            return None, None
+        dn = self.cfg.nodes[d]
+        return dn, def_value(dn, name)
+
+    def is_param(self, n, name) -> bool:
+        ds = self.rd.get(n.id, {}).get(name)
+        return bool(ds) and set(ds) == {C.PARAM_DEF}
+
+    def chain(self, n, e, depth=8):
+        """Normal form of a set expression as a difference chain: (base, frozenset(subtrahend origins)).
+        `set(x)`, `x - a - b`, `x - (a | b)`, `x.difference(a)` and name copies are folded."""
+        e = unwrap(e, tails=("set", "frozenset"))
+        if isinstance(e, ast.Name):
+            dn, v = self.unique_def(n, e.id)
+            if v is not None and depth > 0:
+                copy_ctor = isinstance(v, ast.Call) and isinstance(v.func, ast.Name) \
+                    and v.func.id in ("set", "frozenset") and len(v.args) == 1
+                if copy_ctor or not fresh_mutable(v):
+                    return self.chain(dn, v, depth - 1)
+            return (e.id, frozenset())
+        if isinstance(e, ast.BinOp) and isinstance(e.op, ast.Sub):
+            b, m = self.chain(n, e.left, depth)
+            return (b, m | self.union_atoms(n, e.right, depth))
+        if isinstance(e, ast.Call) and isinstance(e.func, ast.Attribute) and e.func.attr == "difference" and e.args:
+            b, m = self.chain(n, e.func.value, depth)
+            for a in e.args:
+                m = m | self.union_atoms(n, a, depth)
+            return (b, m)
+        return (norm_plain(e), frozenset())
+
+    def union_atoms(self, n, e, depth=8):
+        e = unwrap(e, tails=("set", "frozenset"))
+        if isinstance(e, ast.BinOp) and isinstance(e.op, ast.BitOr):
+            return self.union_atoms(n, e.left, depth) | self.union_atoms(n, e.right, depth)
+        if isinstance(e, ast.Call) and isinstance(e.func, ast.Attribute) and e.func.attr == "union":
+            out = self.union_atoms(n, e.func.value, depth)
+            for a in e.args:
+                out = out | self.union_atoms(n, a, depth)
+            return out
+        return frozenset([self.origin(n, e, depth)])
+
+    def origin(self, n, e, depth=8) -> str:
+        """Where a value comes from: names are followed through unique definitions; the result is a
+        normal-form string in which tuple-unpacking shows as f(x)[i]."""
+        if isinstance(e, ast.Name):
+            dn, v = self.unique_def(n, e.id)
+            if v is not None and depth > 0 and (not fresh_mutable(v) or (isinstance(v, ast.Call) and v.args)):
+                return self.origin(dn, v, depth - 1)
+            return e.id
+        if isinstance(e, ast.Subscript) and isinstance(e.slice, ast.Constant):
+            return "%s[%r]" % (self.origin(n, e.value, depth), e.slice.value)
+        if isinstance(e, ast.Call):
+            f = call_name(e) or "?"
+            return "%s(%s)" % (f, ", ".join(self.origin(n, a, depth) for a in e.args))
+        return norm_plain(e)
+
+
+def reach_from(cfg, a, b) -> bool:
+    seen = set()
+    work = [d for (d, _l) in cfg.succ[a.id]]
+    while work:
+        x = work.pop()
+        if x == b.id:
+            return True
+        if x in seen:
+            continue
+        seen.add(x)
+        work.extend(d for (d, _l) in cfg.succ[x])
+    return False
+
+
+def enclosing_for(fn, node_ast):
+    """The ast.For statements whose body encloses an AST node of fn (outermost first)."""
+    out = []
+
+    def walk(stmts, stack):
+        for st in stmts:
+            if not any(x is node_ast for x in ast.walk(st)):
                 continue
-            out.append((n, name, how, creators))
+            for field in ("body", "orelse", "finalbody"):
+                sub = getattr(st, field, None)
+                if isinstance(sub, list) and sub and isinstance(sub[0], ast.stmt):
+                    inner = stack + [st] if (isinstance(st, ast.For) and field == "body") else stack
+                    if walk(sub, inner):
+                        return True
+            for h in getattr(st, "handlers", []) or []:
+                if walk(h.body, stack):
+                    return True
+            out.extend(stack)
+            return True
+        return False
+    walk(fn.body, [])
     return out
 
 
-def r9_check(fn, r, only=None):
-    """Applies R9 to one function; returns number of candidate sites examined."""
-    cfg = fn.cfg()
-    k = 0
-    for (n, name, how, creators) in r9_candidates(fn):
-        if only is not None and not only(n, name):
+def sink_terms(e):
+    """len(a) + len(b) + 1  /  len(a + b) + 1  ->  (1, ['a', 'b']); None when of another shape."""
+    const = 0
+    names = []
+
+    def add_names(x):
+        if isinstance(x, ast.BinOp) and isinstance(x.op, ast.Add):
+            return add_names(x.left) and add_names(x.right)
+        if isinstance(x, ast.Name):
+            names.append(x.id)
+            return True
+        return False
+
+    def go(x):
+        nonlocal const
+        if isinstance(x, ast.BinOp) and isinstance(x.op, ast.Add):
+            return go(x.left) and go(x.right)
+        if isinstance(x, ast.Constant) and isinstance(x.value, int) and not isinstance(x.value, bool):
+            const += x.value
+            return True
+        if isinstance(x, ast.Call) and isinstance(x.func, ast.Name) and x.func.id == "len" and len(x.args) == 1:
+            return add_names(x.args[0])
+        return False
+    if not go(e):
+        return None
+    return (const, sorted(names))
+
+
+def container_stores(n, cname):
+    """[(kind, key/index expr or None, value expr)] for stores into container `cname` at node n:
+    c.insert(i, v), c.append(v), c[i] = v, c.setdefault(k, v)."""
+    out = []
+    for e in node_exprs(n):
+        for x in own_nodes(e):
+            if isinstance(x, ast.Call) and isinstance(x.func, ast.Attribute) and isinstance(x.func.value, ast.Name) \
+                    and x.func.value.id == cname:
+                if x.func.attr in ("insert", "setdefault") and len(x.args) == 2:
+                    out.append((x.func.attr, x.args[0], x.args[1]))
+                elif x.func.attr in ("append", "add") and len(x.args) == 1:
+                    out.append((x.func.attr, None, x.args[0]))
+    a = n.ast
+    if n.kind == "stmt" and isinstance(a, ast.Assign):
+        for t in a.targets:
+            if isinstance(t, ast.Subscript) and isinstance(t.value, ast.Name) and t.value.id == cname:
+                out.append(("setitem", t.slice, a.value))
+    return out
+
+
+def returned_name(fn):
+    names = {n.ast.value.id for n in fn.cfg().find(is_return) if isinstance(n.ast.value, ast.Name)}
+    if len(names) != 1:
+        raise AnchorVanished("%s no longer returns one named container" % fn.qual)
+    return names.pop()
+
+
+def loops_over(fn, name):
+    """ast.For statements of fn (own nodes) iterating (a view/sorted copy of) plain name `name`."""
+    out = []
+    for x in func_own_nodes(fn):
+        if isinstance(x, ast.For):
+            it, _v = unwrap_view(x.iter)
+            if isinstance(it, ast.Name) and it.id == name:
+                out.append(x)
+    return out
+
+
+def iter_node(cfg, for_ast):
+    for n in cfg.nodes:
+        if n.kind == "iter" and n.ast is for_ast:
+            return n
+    raise AnchorVanished("loop head not in CFG")
+
+
+def body_skips(cfg, head, gate, gate_edge=None) -> list:
+    """Witness (node ids) of a way through one iteration of the loop at `head` that passes no `gate` node
+    (and no `gate_edge` edge)."""
+    start = [d for (d, l) in cfg.succ[head.id] if l == "iter"]
+    par = {d: None for d in start}
+    work = list(start)
+    while work:
+        x = work.pop()
+        nx = cfg.nodes[x]
+        if nx is head or nx.kind == "exit":
+            p = []
+            while x is not None:
+                p.append(x)
+                x = par[x]
+            return list(reversed(p))
+        if gate(nx):
             continue
-        on, path = shared_cycle(cfg, n, name)
-        if not on:
-            continue          # not in a loop, or re-bound on every way round
-        k += 1
-        r.site(fn, n.ast, "%s -> %s" % (name, how))
-        r.count(len(on))
-        muts = [cfg.nodes[i] for i in sorted(on) if mutates(cfg.nodes[i], name)]
-        if muts:
-            w = ["L%d %r" % (cfg.nodes[i].lineno, cfg.nodes[i]) for i in path]
-            r.violation(fn, fn.loc(n.ast),
-                        "loop-escape alias: `%s` (created at line %s, outside the loop) is stored by %s in every "
-                        "iteration and mutated at line %s without being re-bound in between - every slot holds the "
-                        "same object" % (name, ",".join(str(c.lineno) for c in creators), how,
-                                         ",".join(str(m.lineno) for m in muts)), w)
-    return k
+        for (d, l) in cfg.succ[x]:
+            if l == "exc" and cfg.nodes[d].kind == "raise":
+                continue
+            if gate_edge is not None and gate_edge(nx, l):
+                continue
+            if d not in par:
+                par[d] = x
+                work.append(d)
+    return []
+
+
+def fact_gate(fnorm, want):
+    """gate_edge predicate: the canonical fact on the edge satisfies want(op, l, r).
+    fnorm=None: facts over the plain names (no substitution of locals)."""
+    plain = Normaliser(Env(None, depth=0))
+
+    def g(n, lab):
+        if fnorm is None:
+            f = fact_on_edge(plain, n, lab)
+        else:
+            f = fnorm.edge_fact(n, lab)
+        return bool(f) and bool(want(*f))
+    return g
 
 
 def run(ctx: Context):
     idx = ctx.idx
-    with ctx.rule("C07.1", "R9", "no container created outside a loop is inserted per iteration and mutated per "
-                  "iteration without re-binding (sweep of happiness_upload, happinessutil, immutable.upload); the "
-                  "per-peer adjacency row of _servermap_flow_graph is created in the peer's iteration", expected=1) as r:
+    reported = set()
+
+    # ------------------------------------------------------------------ 1
+    with ctx.rule("C07.1", "R9", "loop-escape alias: no container created outside a loop is inserted per iteration and "
+                  "mutated per iteration without re-binding (sweep of happiness_upload, happinessutil, "
+                  "immutable.upload); the adjacency row stored for peer p in _servermap_flow_graph is built from "
+                  "containers created in p's iteration", expected=2) as r:
+        fn = idx.func(HU + ":_servermap_flow_graph")
+        fl = Flow(fn)
+        cfg = fn.cfg()
+        P = first_positional_params(fn)[0]
+        g = returned_name(fn)
+        ploops = loops_over(fn, P)
+        rows = []
+        for n in cfg.stmt_nodes():
+            encl = enclosing_for(fn, n.ast) if n.kind == "stmt" else []
+            if not any(l in ploops for l in encl):
+                continue
+            for (kind, key, val) in container_stores(n, g):
+                rows.append((n, key, val))
+        if not rows:
+            raise AnchorVanished("_servermap_flow_graph: no per-peer store into the graph inside `for .. in %s`" % P)
+        for (n, key, val) in rows:
+            r.site(fn, n.ast, "adjacency row of a peer")
+            funcs = {id(c.func) for c in own_nodes(val) if isinstance(c, ast.Call)}
+            for nm in sorted({x.id for x in own_nodes(val) if isinstance(x, ast.Name) and id(x) not in funcs}):
+                cr = creators_of(cfg, fl.rd, n, nm)
+                if not cr:
+                    continue
+                reported.add((fn.qual, id(n.ast), nm))
+                r9_alias(fn, r, n, nm, "%s[peer index]" % g, cr, what="stored (or copied into the row)")
+        # general sweep
         total = 0
-        for fn in idx.funcs.values():
-            if fn.module.name in SWEEP_MODULES and not isinstance(fn.node, ast.Lambda):
-                total += r9_check(fn, r)
-        ctx.note("R9 candidates: %d" % total)
+        for f in idx.funcs.values():
+            if f.module.name in SWEEP_MODULES and not isinstance(f.node, ast.Lambda):
+                cfg2 = f.cfg()
+                rd2 = C.reaching_defs(cfg2)
+                reach = cfg2.reachable_nodes()
+                for n in cfg2.stmt_nodes():
+                    if n.id not in reach:
+                        continue
+                    for (name, how) in escaping_stores(n):
+                        cr = creators_of(cfg2, rd2, n, name)
+                        if not cr or not on_cycle(cfg2, n):
+                            continue
+                        total += 1
+                        r.site(f, n.ast, "%s -> %s" % (name, how))
+                        if (f.qual, id(n.ast), name) not in reported:
+                            r9_alias(f, r, n, name, how, cr)
+        ctx.note("R9: %d insertions of locally created containers inside loops examined" % total)
+
+    # ------------------------------------------------------------------ 2
+    with ctx.rule("C07.2", "R5", "index space of the placement flow graph: _reindex bases, source/peer/share/sink rows "
+                  "of _servermap_flow_graph and _flow_network, row provenance servermap[peer], read-back with the "
+                  "sink index and conversion through index_to_share/index_to_peer", expected=14) as r:
+        # (a) _reindex itself
+        rx = idx.func(HU + ":_reindex")
+        items, base = first_positional_params(rx)[:2]
+        rcfg = rx.cfg()
+        rets = [n for n in rcfg.find(is_return) if isinstance(n.ast.value, ast.Tuple) and len(n.ast.value.elts) == 2
+                and all(isinstance(e, ast.Name) for e in n.ast.value.elts)]
+        if len(rets) != 1:
+            raise AnchorVanished("_reindex no longer returns a pair of named dicts")
+        fwd_name, back_name = [e.id for e in rets[0].ast.value.elts]
+        rloops = loops_over(rx, items)
+        if len(rloops) != 1:
+            raise AnchorVanished("_reindex: loop over %s" % items)
+        lv = rloops[0].target.id if isinstance(rloops[0].target, ast.Name) else None
+        head = iter_node(rcfg, rloops[0])
+        r.site(rx, rloops[0], "_reindex numbering loop")
+        st_f = [(n, k, v) for n in rcfg.stmt_nodes() for (_k, k, v) in container_stores(n, fwd_name)]
+        st_b = [(n, k, v) for n in rcfg.stmt_nodes() for (_k, k, v) in container_stores(n, back_name)]
+        r.require(len(st_f) == 1 and norm_plain(st_f[0][1]) == lv and norm_plain(st_f[0][2]) == base, rx, rx.loc(),
+                  "_reindex: %s is not filled with {item: current index}" % fwd_name)
+        r.require(len(st_b) == 1 and norm_plain(st_b[0][1]) == base and norm_plain(st_b[0][2]) == lv, rx, rx.loc(),
+                  "_reindex: %s is not filled with {current index: item}" % back_name)
+        incs = [n for n in rcfg.stmt_nodes() if n.kind == "stmt" and isinstance(n.ast, ast.AugAssign)
+                and isinstance(n.ast.op, ast.Add) and attr_path(n.ast.target) == base
+                and norm_plain(n.ast.value) == "1"]
+        incs += [n for n in rcfg.stmt_nodes() if n.kind == "stmt" and isinstance(n.ast, ast.Assign)
+                 and [attr_path(t) for t in n.ast.targets] == [base]
+                 and norm_plain(n.ast.value) == norm_src("%s + 1" % base)]
+        if r.require(len(incs) == 1, rx, rx.loc(), "_reindex: the index is not advanced by exactly one per item"):
+            inc = incs[0]
+            stores_fb = {id(x[0]) for x in st_f + st_b}
+            w = body_skips(rcfg, head, lambda n: n is inc)
+            r.require(not w, rx, rx.loc(inc.ast), "_reindex: an item can be numbered without advancing the index")
+            # the increment comes after both stores of the iteration
+            for (n, _k, _v) in st_f + st_b:
+                late = find_path_from_to_avoiding(rcfg, lambda m: m is inc, lambda m: m is head,
+                                                  ends=lambda m, _n=n: m is _n)
+                r.require(not late, rx, rx.loc(inc.ast), "_reindex: the index is advanced between the two table stores")
+
+        # (b) bases agree in _calculate_mappings and _servermap_flow_graph
+        tables = {}
+        for q in ("_calculate_mappings", "_servermap_flow_graph"):
+            f = idx.func(HU + ":" + q)
+            ps = first_positional_params(f)
+            P, SH = ps[0], ps[1]
+            nm = N(f)
+            cs = calls_in_func(f, "_reindex")
+            got = {}
+            for c in cs:
+                a0, a1 = arg(c, 0, "items"), arg(c, 1, "base")
+                if isinstance(a0, ast.Name) and a1 is not None:
+                    got[a0.id] = (c, nm.norm(a1))
+            if P not in got or SH not in got:
+                raise AnchorVanished("%s: _reindex(%s, ..) / _reindex(%s, ..)" % (q, P, SH))
+            r.site(f, got[P][0], "peer numbering")
+            r.site(f, got[SH][0], "share numbering")
+            r.require(got[P][1] == "1", f, f.loc(got[P][0]),
+                      "%s numbers the peers from %s; vertex 0 is the source, peers must start at 1" % (q, got[P][1]))
+            want = norm_src("len(%s) + 1" % P)
+            r.require(got[SH][1] == want, f, f.loc(got[SH][0]),
+                      "%s numbers the shares from %s, expected %s (directly after the peers)" % (q, got[SH][1], want))
+            # names of the tables
+            tb = {}
+            for x in func_own_nodes(f):
+                if isinstance(x, ast.Assign) and isinstance(x.value, ast.Call) and call_tail(x.value) == "_reindex" \
+                        and isinstance(x.targets[0], ast.Tuple) and len(x.targets[0].elts) == 2:
+                    a0 = arg(x.value, 0, "items")
+                    kind = "peer" if (isinstance(a0, ast.Name) and a0.id == P) else "share"
+                    tb[kind + "_to_index"] = attr_path(x.targets[0].elts[0])
+                    tb["index_to_" + kind] = attr_path(x.targets[0].elts[1])
+            tables[q] = tb
+
+        # (c) _servermap_flow_graph layout
+        fn = idx.func(HU + ":_servermap_flow_graph")
+        fl = Flow(fn)
+        cfg = fn.cfg()
+        fnorm = FlowNorm(fn)
+        P, SH, SM = first_positional_params(fn)[:3]
+        g = returned_name(fn)
+        tb = tables["_servermap_flow_graph"]
+        p2i, s2i = tb.get("peer_to_index"), tb.get("share_to_index")
+        if not p2i or not s2i:
+            raise AnchorVanished("_servermap_flow_graph: index tables")
+        ploops, sloops = loops_over(fn, P), loops_over(fn, SH)
+        all_stores = [(n, kind, key, val) for n in cfg.stmt_nodes() for (kind, key, val) in container_stores(n, g)]
+
+        def in_loop(n, loops):
+            return n.kind == "stmt" and any(l in loops for l in enclosing_for(fn, n.ast))
+        peer_rows = [x for x in all_stores if in_loop(x[0], ploops)]
+        share_rows = [x for x in all_stores if in_loop(x[0], sloops) and not in_loop(x[0], ploops)]
+        others = [x for x in all_stores if x not in peer_rows and x not in share_rows]
+        if not peer_rows or not share_rows or not others:
+            raise AnchorVanished("_servermap_flow_graph: source/peer/share/sink rows")
+        # source row
+        srcs = [x for x in others if isinstance(x[3], ast.ListComp)]
+        sinks = [x for x in others if isinstance(x[3], ast.List) and not x[3].elts]
+        r.site(fn, srcs[0][0].ast if srcs else None, "source row")
+        ok = False
+        if len(srcs) == 1 and srcs[0][1] == "append":
+            lc = srcs[0][3]
+            if len(lc.generators) == 1 and not lc.generators[0].ifs and isinstance(lc.generators[0].target, ast.Name):
+                tv = lc.generators[0].target.id
+                ok = norm_plain(unwrap(lc.generators[0].iter)) == P and norm_plain(lc.elt) == "%s[%s]" % (p2i, tv)
+        r.require(ok, fn, fn.loc(srcs[0][0].ast if srcs else None),
+                  "the source row (vertex 0) is not [%s[p] for p in %s]" % (p2i, P))
+        if srcs:
+            for (t, w) in find_path_avoiding(cfg, lambda m: any(m is x[0] for x in peer_rows + share_rows + sinks),
+                                             gate_node=lambda m: m is srcs[0][0]):
+                r.violation(fn, fn.loc(t.ast), "a row is added to the graph before the source row (vertex 0)", w)
+        # peer rows
+        for (n, kind, key, val) in peer_rows:
+            r.site(fn, n.ast, "peer row index")
+            loop = [l for l in enclosing_for(fn, n.ast) if l in ploops][0]
+            pv = loop.target.id if isinstance(loop.target, ast.Name) else "?"
+            r.require(kind in ("insert", "setitem") and key is not None and norm_plain(key) == "%s[%s]" % (p2i, pv),
+                      fn, fn.loc(n.ast), "peer row stored at %s, expected index %s[%s]" % (
+                          src(fn, key) if key is not None else "the end", p2i, pv))
+            # provenance of the row's elements
+            rv = val.id if isinstance(val, ast.Name) else None
+            elems = []
+            if rv is not None:
+                for m in cfg.stmt_nodes():
+                    if in_loop(m, [loop]):
+                        for (k2, key2, v2) in container_stores(m, rv):
+                            elems.append((m, v2))
+            comp = fl.unique_def(n, rv)[1] if rv else val
+            if isinstance(comp, ast.ListComp):
+                gen = comp.generators[0]
+                tv = gen.target.id if isinstance(gen.target, ast.Name) else "?"
+                it = norm_plain(gen.iter)
+                guards = {norm_plain(i) for i in gen.ifs}
+                okc = len(comp.generators) == 1 and norm_plain(comp.elt) == "%s[%s]" % (s2i, tv) \
+                    and norm_src("%s in %s" % (tv, s2i)) in guards \
+                    and (it.startswith("%s.get(%s, " % (SM, pv)) or it == "%s[%s]" % (SM, pv))
+                r.site(fn, comp, "row elements (comprehension)")
+                r.require(okc, fn, fn.loc(comp), "row of peer %s is %s, expected %s[s] for s in %s[%s] if s in %s" % (
+                    pv, src(fn, comp), s2i, SM, pv, s2i))
+                if it == "%s[%s]" % (SM, pv):
+                    bad = find_path_avoiding(cfg, lambda m: m is fl.node_of(comp),
+                                             gate_edge=fact_gate(None, lambda op, l, rr: (op, l, rr) == ("in", pv, SM)),
+                                             kill=lambda m: m.kind == "iter" and m.ast is loop)
+                    for (t, w) in bad:
+                        r.violation(fn, fn.loc(t.ast), "%s[%s] is read without checking %s in %s" % (SM, pv, pv, SM), w)
+                continue
+            if not elems:
+                r.violation(fn, fn.loc(n.ast), "the row stored for peer %s is never filled from %s[%s]" % (pv, SM, pv))
+                continue
+            for (m, v2) in elems:
+                r.site(fn, m.ast, "row element")
+                inner = [l for l in enclosing_for(fn, m.ast) if l is not loop and l not in ploops]
+                sv = inner[-1].target.id if inner and isinstance(inner[-1].target, ast.Name) else None
+                it = norm_plain(unwrap(inner[-1].iter)) if inner else None
+                r.require(sv is not None and norm_plain(v2) == "%s[%s]" % (s2i, sv) and it == "%s[%s]" % (SM, pv),
+                          fn, fn.loc(m.ast), "row of peer %s gets %s for %s in %s; expected %s[s] for s in %s[%s] "
+                          "(a server is adjacent only to the shares it holds)" % (
+                              pv, src(fn, v2), sv, it, s2i, SM, pv))
+                if sv is None:
+                    continue
+                for (what, fact) in (("%s in %s" % (pv, SM), ("in", pv, SM)), ("%s in %s" % (sv, s2i), ("in", sv, s2i))):
+                    bad = find_path_avoiding(
+                        cfg, lambda x, _m=m: x is _m,
+                        gate_edge=fact_gate(None, lambda op, l, rr, _f=fact: (op, l, rr) == _f),
+                        kill=lambda x, _v=fact[1]: x.kind == "iter" and _v in node_stores(x))
+                    r.count(len(cfg.nodes))
+                    for (t, w) in bad:
+                        r.violation(fn, fn.loc(t.ast), "row element added without the guard `%s` (KeyError for a share "
+                                    "outside this phase / a peer without shares) (path: %s)" % (what, w.brief()), w)
+        # share rows + sink
+        sink_names = set()
+        for (n, kind, key, val) in share_rows:
+            r.site(fn, n.ast, "share row")
+            loop = [l for l in enclosing_for(fn, n.ast) if l in sloops][0]
+            shv = loop.target.id if isinstance(loop.target, ast.Name) else "?"
+            okk = kind in ("insert", "setitem") and key is not None and norm_plain(key) == "%s[%s]" % (s2i, shv)
+            r.require(okk, fn, fn.loc(n.ast), "share row stored at %s, expected index %s[%s]" % (
+                src(fn, key) if key is not None else "the end", s2i, shv))
+            okv = isinstance(val, ast.List) and len(val.elts) == 1
+            r.require(okv, fn, fn.loc(n.ast), "a share vertex must have exactly one edge, to the sink; got %s" % src(fn, val))
+            if okv:
+                se = fl.unique_def(n, val.elts[0].id)[1] if isinstance(val.elts[0], ast.Name) else val.elts[0]
+                st = sink_terms(se) if se is not None else None
+                r.require(st == (1, sorted([P, SH])), fn, fn.loc(n.ast),
+                          "sink index is %s, expected len(%s) + len(%s) + 1 (the last row)" % (
+                              src(fn, se) if se is not None else "?", P, SH))
+            # peers loop is finished before the first share row
+            heads = [iter_node(cfg, l) for l in ploops]
+            bad = find_path_avoiding(cfg, lambda x, _n=n: x is _n,
+                                     gate_edge=lambda x, lab: lab == "done" and any(x is h for h in heads))
+            for (t, w) in bad:
+                r.violation(fn, fn.loc(t.ast), "share rows are inserted before all peer rows (indices would shift)", w)
+        r.site(fn, sinks[0][0].ast if sinks else None, "sink row")
+        if r.require(len(sinks) == 1 and sinks[0][1] == "append", fn, fn.loc(), "no single empty sink row is appended last"):
+            sk = sinks[0][0]
+            heads = [iter_node(cfg, l) for l in sloops]
+            bad = find_path_avoiding(cfg, lambda x: x is sk,
+                                     gate_edge=lambda x, lab: lab == "done" and any(x is h for h in heads))
+            for (t, w) in bad:
+                r.violation(fn, fn.loc(t.ast), "the sink row is appended before the share rows", w)
+            rg = [n for n in cfg.find(is_return) if isinstance(n.ast.value, ast.Name) and n.ast.value.id == g]
+            bad = find_path_avoiding(cfg, lambda x: any(x is y for y in rg), gate_node=lambda x: x is sk)
+            for (t, w) in bad:
+                r.violation(fn, fn.loc(t.ast), "graph returned without its sink row", w)
+
+        # (d) _flow_network
+        fw = idx.func(HU + ":_flow_network")
+        PI, SI = first_positional_params(fw)[:2]
+        wcfg = fw.cfg()
+        wl = Flow(fw)
+        gw = returned_name(fw)
+        wst = [(n, kind, key, val) for n in wcfg.stmt_nodes() for (kind, key, val) in container_stores(n, gw)]
+        wp = [x for x in wst if x[0].kind == "stmt" and any(l in loops_over(fw, PI) for l in enclosing_for(fw, x[0].ast))]
+        ws = [x for x in wst if x[0].kind == "stmt" and any(l in loops_over(fw, SI) for l in enclosing_for(fw, x[0].ast))]
+        wo = [x for x in wst if x not in wp and x not in ws]
+        if len(wp) != 1 or len(ws) != 1 or len(wo) != 2:
+            raise AnchorVanished("_flow_network: source/peer/share/sink rows")
+        r.site(fw, wp[0][0].ast, "_flow_network peer rows")
+        lp = [l for l in enclosing_for(fw, wp[0][0].ast)][0]
+        r.require(wp[0][2] is not None and norm_plain(wp[0][2]) == norm_plain(lp.target)
+                  and norm_plain(unwrap(wp[0][3])) == SI, fw, fw.loc(wp[0][0].ast),
+                  "_flow_network: a peer vertex is not connected to every share index at its own index")
+        r.site(fw, ws[0][0].ast, "_flow_network share rows")
+        ls = [l for l in enclosing_for(fw, ws[0][0].ast)][0]
+        val = ws[0][3]
+        se = None
+        if isinstance(val, ast.List) and len(val.elts) == 1:
+            se = wl.unique_def(ws[0][0], val.elts[0].id)[1] if isinstance(val.elts[0], ast.Name) else val.elts[0]
+        r.require(ws[0][2] is not None and norm_plain(ws[0][2]) == norm_plain(ls.target) and se is not None
+                  and sink_terms(se) == (1, sorted([PI, SI])), fw, fw.loc(ws[0][0].ast),
+                  "_flow_network: share rows must be [sink] with sink = len(%s) + len(%s) + 1" % (PI, SI))
+        first = [x for x in wo if isinstance(x[3], ast.Name)]
+        last = [x for x in wo if isinstance(x[3], ast.List) and not x[3].elts]
+        r.require(len(first) == 1 and first[0][1] == "append" and first[0][3].id == PI and len(last) == 1
+                  and last[0][1] == "append", fw, fw.loc(), "_flow_network: source row %s / empty sink row" % PI)
+        if len(first) == 1 and len(last) == 1:
+            for (t, w) in find_path_avoiding(wcfg, lambda x: x is wp[0][0] or x is ws[0][0] or x is last[0][0],
+                                             gate_node=lambda x: x is first[0][0]):
+                r.violation(fw, fw.loc(t.ast), "_flow_network: a row precedes the source row", w)
+            hp = iter_node(wcfg, lp)
+            hs = iter_node(wcfg, ls)
+            for (t, w) in find_path_avoiding(wcfg, lambda x: x is ws[0][0], gate_edge=lambda x, lab: x is hp and lab == "done"):
+                r.violation(fw, fw.loc(t.ast), "_flow_network: share rows before peer rows", w)
+            for (t, w) in find_path_avoiding(wcfg, lambda x: x is last[0][0], gate_edge=lambda x, lab: x is hs and lab == "done"):
+                r.violation(fw, fw.loc(t.ast), "_flow_network: sink row before share rows", w)
+
+        # (e) _calculate_mappings plumbing
+        cm = idx.func(HU + ":_calculate_mappings")
+        cl = Flow(cm)
+        ccfg = cm.cfg()
+        cnorm = FlowNorm(cm)
+        P, SH, SM = first_positional_params(cm)[:3]
+        tb = tables["_calculate_mappings"]
+        want_pi = "_reindex(%s, 1)" % P
+        want_si = "_reindex(%s, %s)" % (SH, norm_src("len(%s) + 1" % P))
+
+        def the_call(tail):
+            ns = [n for n in ccfg.nodes if calls_at(n, tail)]
+            if len(ns) != 1:
+                raise AnchorVanished("_calculate_mappings: call of %s" % tail)
+            return ns[0], calls_at(ns[0], tail)[0]
+        n_sf, c_sf = the_call("_servermap_flow_graph")
+        n_fn, c_fn = the_call("_flow_network")
+        n_mx, c_mx = the_call("_compute_maximum_graph")
+        n_cv, c_cv = the_call("_convert_mappings")
+        r.site(cm, c_sf, "servermap graph call")
+        r.require([norm_plain(a) for a in c_sf.args] == [P, SH, SM] and not c_sf.keywords, cm, cm.loc(c_sf),
+                  "_servermap_flow_graph is not given (%s, %s, %s): the two numberings would disagree" % (P, SH, SM))
+
+        def index_list(n, e, table_origin, over):
+            e = cl.unique_def(n, e.id)[1] if isinstance(e, ast.Name) else e
+            if not (isinstance(e, ast.ListComp) and len(e.generators) == 1 and not e.generators[0].ifs):
+                return False
+            gen = e.generators[0]
+            if not (isinstance(e.elt, ast.Subscript) and isinstance(gen.target, ast.Name)
+                    and norm_plain(e.elt.slice) == gen.target.id and norm_plain(unwrap(gen.iter)) == over):
+                return False
+            return cl.origin(cl.node_of(e), e.elt.value) == table_origin
+        r.site(cm, c_fn, "complete graph call")
+        r.require(len(c_fn.args) == 2 and index_list(n_fn, c_fn.args[0], want_pi + "[0]", P)
+                  and index_list(n_fn, c_fn.args[1], want_si + "[0]", SH), cm, cm.loc(c_fn),
+                  "_flow_network is not given [peer_to_index[p] for p in %s], [share_to_index[s] for s in %s]" % (P, SH))
+        r.site(cm, c_mx, "matching call")
+        g_arg = arg(c_mx, 0, "graph")
+        gdefs = {d for d in cl.rd.get(n_mx.id, {}).get(g_arg.id, ())} if isinstance(g_arg, ast.Name) else set()
+        r.require(gdefs == {n_sf.id, n_fn.id}, cm, cm.loc(c_mx),
+                  "the graph given to _compute_maximum_graph is not the one built by _servermap_flow_graph/_flow_network")
+        r.require(len(c_mx.args) == 2 and index_list(n_mx, c_mx.args[1], want_si + "[0]", SH), cm, cm.loc(c_mx),
+                  "_compute_maximum_graph is not given the index of every share in %s (a share would get no key)" % SH)
+        r.site(cm, c_cv, "conversion call")
+        got = [cl.origin(n_cv, a) for a in c_cv.args]
+        r.require(len(got) == 3 and got[0] == want_pi + "[1]" and got[1] == want_si + "[1]"
+                  and got[2].startswith("_compute_maximum_graph("), cm, cm.loc(c_cv),
+                  "_convert_mappings gets (%s), expected (index_to_peer, index_to_share, matching)" % ", ".join(got))
+        rt = [n for n in ccfg.find(is_return)]
+        r.require(len(rt) == 1 and cl.origin(rt[0], rt[0].ast.value).startswith("_convert_mappings("), cm, cm.loc(),
+                  "_calculate_mappings does not return the converted matching")
+        # servermap branch
+        t_fact = fact_gate(cnorm, lambda op, l, rr: op == "truth" and l == SM)
+        f_fact = fact_gate(cnorm, lambda op, l, rr: op == "false" and l == SM)
+        for (t, w) in find_path_avoiding(ccfg, lambda x: x is n_sf, gate_edge=t_fact):
+            r.violation(cm, cm.loc(t.ast), "_servermap_flow_graph is used although no servermap was given", w)
+        for (t, w) in find_path_avoiding(ccfg, lambda x: x is n_fn, gate_edge=f_fact):
+            r.violation(cm, cm.loc(t.ast), "the complete peers x shares graph is used although a servermap was given: a "
+                        "server would be matched with shares it does not hold", w)
+
+        # (f) _compute_maximum_graph read-back
+        mg = idx.func(HU + ":_compute_maximum_graph")
+        G, SI = first_positional_params(mg)[:2]
+        mcfg = mg.cfg()
+        mnorm = FlowNorm(mg)
+        out = returned_name(mg)
+        mloops = loops_over(mg, SI)
+        if len(mloops) != 1 or not isinstance(mloops[0].target, ast.Name):
+            raise AnchorVanished("_compute_maximum_graph: loop over %s" % SI)
+        sv = mloops[0].target.id
+        mhead = iter_node(mcfg, mloops[0])
+        mst = [(n, key, val) for n in mcfg.stmt_nodes() for (_k, key, val) in container_stores(n, out)]
+        if not mst:
+            raise AnchorVanished("_compute_maximum_graph: stores into %s" % out)
+        r.site(mg, mloops[0], "read-back loop")
+        w = body_skips(mcfg, mhead, lambda n: any(n is x[0] for x in mst))
+        r.require(not w, mg, mg.loc(mloops[0]), "a share index can leave the read-back loop without a key in %s" % out)
+        resid = None
+        for (n, key, val) in mst:
+            r.site(mg, n.ast, "read-back store")
+            r.require(key is not None and norm_plain(key) == sv, mg, mg.loc(n.ast),
+                      "matching stored under %s, expected the share index %s" % (src(mg, key), sv))
+            sink_list = norm_src("[len(%s) - 1]" % G)
+            is_none = isinstance(val, ast.Constant) and val.value is None
+            vn = mnorm.norm(n, val)
+            m_ = re.match(r"^(\w+)\[%s\]\[0\]$" % re.escape(sv), vn)
+            if not is_none:
+                r.require(m_ is not None, mg, mg.loc(n.ast), "matched peer read as %s, expected residual_graph[%s][0]" % (vn, sv))
+                if m_:
+                    resid = m_.group(1)
+            rname = resid or "residual_graph"
+
+            def at_sink(op, l, rr, _eq=is_none):
+                return op == ("==" if _eq else "!=") and sink_list in (l, rr) and \
+                    re.match(r"^\w+\[%s\]$" % re.escape(sv), rr if l == sink_list else l) is not None
+            bad = find_path_avoiding(mcfg, lambda x, _n=n: x is _n, gate_edge=fact_gate(mnorm, at_sink),
+                                     kill=lambda x: x is mhead)
+            r.count(len(mcfg.nodes))
+            for (t, w2) in bad:
+                r.violation(mg, mg.loc(t.ast), "share %s without comparing its residual edges with [len(%s) - 1] "
+                            "(the sink is the last row)" % ("declared unmatched" if is_none else "read as matched", G), w2)
+
+        # (g) _convert_mappings
+        cv = idx.func(HU + ":_convert_mappings")
+        I2P, I2S, MG = first_positional_params(cv)[:3]
+        vcfg = cv.cfg()
+        vnorm = FlowNorm(cv)
+        vout = returned_name(cv)
+        vloops = loops_over(cv, MG)
+        if len(vloops) != 1 or not isinstance(vloops[0].target, ast.Name):
+            raise AnchorVanished("_convert_mappings: loop over %s" % MG)
+        kv = vloops[0].target.id
+        vhead = iter_node(vcfg, vloops[0])
+        vst = [(n, key, val) for n in vcfg.stmt_nodes() for (_k, key, val) in container_stores(n, vout)]
+        if not vst:
+            raise AnchorVanished("_convert_mappings: stores")
+        r.site(cv, vloops[0], "conversion loop")
+        r.require(not body_skips(vcfg, vhead, lambda n: any(n is x[0] for x in vst)), cv, cv.loc(vloops[0]),
+                  "a share of the matching can be dropped by _convert_mappings")
+        wantv = {norm_src("set([%s[%s[%s]]])" % (I2P, MG, kv)), norm_src("{%s[%s[%s]]}" % (I2P, MG, kv))}
+        for (n, key, val) in vst:
+            r.site(cv, n.ast, "conversion store")
+            r.require(key is not None and vnorm.norm(n, key) == "%s[%s]" % (I2S, kv), cv, cv.loc(n.ast),
+                      "converted key is %s, expected %s[%s]" % (src(cv, key), I2S, kv))
+            is_none = isinstance(val, ast.Constant) and val.value is None
+            if not is_none:
+                r.require(vnorm.norm(n, val) in wantv, cv, cv.loc(n.ast),
+                          "converted peer is %s, expected {%s[%s[%s]]}" % (vnorm.norm(n, val), I2P, MG, kv))
+
+            def none_fact(op, l, rr, _eq=is_none):
+                ops = ("==", "is") if _eq else ("!=", "is not")
+                return op in ops and {l, rr} == {"None", "%s[%s]" % (MG, kv)}
+            for (t, w2) in find_path_avoiding(vcfg, lambda x, _n=n: x is _n, gate_edge=fact_gate(vnorm, none_fact),
+                                              kill=lambda x: x is vhead):
+                r.violation(cv, cv.loc(t.ast), "unmatched (None) and matched shares are confused in _convert_mappings", w2)
+
+    # ------------------------------------------------------- share_placement
+    sp = idx.func(HU + ":share_placement")
+    sl = Flow(sp)
+    scfg = sp.cfg()
+    snorm = FlowNorm(sp)
+    P, RO, SH, P2S = first_positional_params(sp)[:4]
+    calc = [n for n in scfg.nodes if calls_at(n, "_calculate_mappings")]
+    phases = []
+    if len(calc) == 3 and all(n.kind == "stmt" and isinstance(n.ast, ast.Assign) and len(n.ast.targets) == 1
+                              and isinstance(n.ast.targets[0], ast.Name) for n in calc):
+        calc.sort(key=lambda n: sum(1 for m in calc if reach_from(scfg, m, n)))
+        phases = [(n, calls_at(n, "_calculate_mappings")[0], n.ast.targets[0].id) for n in calc]
+
+    def need_phases():
+        if len(phases) != 3:
+            raise AnchorVanished("share_placement: three `x = _calculate_mappings(..)` phases")
+
+    def ids_of(target, i):
+        return "_extract_ids(%s)[%d]" % (target, i)
+
+    def extract_origin(n, e):
+        """'_extract_ids(<name of the mappings variable>)[i]' for a name bound by unpacking _extract_ids."""
+        if not isinstance(e, ast.Name):
+            return norm_plain(e)
+        dn, v = sl.unique_def(n, e.id)
+        if isinstance(v, ast.Subscript) and isinstance(v.value, ast.Call) and call_tail(v.value) == "_extract_ids" \
+                and isinstance(v.slice, ast.Constant) and len(v.value.args) == 1:
+            return "_extract_ids(%s)[%r]" % (norm_plain(v.value.args[0]), v.slice.value)
+        return e.id
+
+    def chain_x(n, e):
+        """Difference chain whose subtrahends are shown by their _extract_ids origin."""
+        b, m = sl.chain(n, e)
+        # subtrahend origins were computed by Flow.origin: '_extract_ids(_calculate_mappings(..))[i]'; map the
+        # inner call back to the phase's variable
+        out = set()
+        for o in m:
+            for (pn, pc, pt) in phases:
+                inner = sl.origin(pn, pn.ast.value)
+                o = o.replace(inner, pt)
+            out.add(o)
+        return b, frozenset(out)
+
+    # ------------------------------------------------------------------ 3
+    with ctx.rule("C07.3", "R3", "read-only exclusion: read-only servers take part only in phase 1 with the shares they "
+                  "hold; homeless distribution and the round-robin see writable servers only; PeerSelector keeps the "
+                  "two sets disjoint and passes them in order", expected=9) as r:
+        need_phases()
+        (n1, c1, t1), (n2, c2, t2), (n3, c3, t3) = phases
+        # phase 1 arguments
+        r.site(sp, c1, "phase 1 (read-only servers)")
+        a = list(c1.args) + [None] * 3
+        sm1 = kwarg(c1, "servermap") or a[2]
+        r.require(a[0] is not None and sl.chain(n1, a[0]) == (RO, frozenset()), sp, sp.loc(c1),
+                  "phase 1 must match exactly the read-only servers (%s); got %s" % (RO, src(sp, a[0])))
+        ro_map = sm1.id if isinstance(sm1, ast.Name) else None
+        ro_sh = a[1].id if isinstance(a[1], ast.Name) else None
+        if not r.require(ro_map is not None and ro_sh is not None and bool(creators_of(scfg, sl.rd, n1, ro_map))
+                         and bool(creators_of(scfg, sl.rd, n1, ro_sh)), sp, sp.loc(c1),
+                         "phase 1 is not given a servermap/share set built locally from the read-only servers' shares"):
+            ro_map = ro_sh = None
+        if ro_map:
+            fills = [(n, key, val) for n in scfg.stmt_nodes() for (_k, key, val) in container_stores(n, ro_map)]
+            adds = [(n, key, val) for n in scfg.stmt_nodes() for (_k, key, val) in container_stores(n, ro_sh)]
+            if not fills or not adds:
+                raise AnchorVanished("share_placement: filling of %s / %s" % (ro_map, ro_sh))
+            for (n, key, val) in fills:
+                r.site(sp, n.ast, "read-only servermap entry")
+                loops = enclosing_for(sp, n.ast)
+                pv = loops[0].target.id if loops and isinstance(loops[0].target, ast.Name) else None
+                okf = pv is not None and key is not None and norm_plain(key) == pv \
+                    and norm_plain(unwrap(val)) == "%s[%s]" % (P2S, pv)
+                r.require(okf, sp, sp.loc(n.ast), "read-only servermap entry %s -> %s is not peer -> %s[peer]" % (
+                    src(sp, key), src(sp, val), P2S))
+                if pv:
+                    for (t, w) in find_path_avoiding(
+                            scfg, lambda x, _n=n: x is _n,
+                            gate_edge=fact_gate(None, lambda op, l, rr, _p=pv: (op, l, rr) == ("in", _p, RO)),
+                            kill=lambda x, _p=pv: x.kind == "iter" and _p in node_stores(x)):
+                        r.violation(sp, sp.loc(t.ast), "a server enters the read-only servermap without `%s in %s`" % (pv, RO), w)
+            for (n, key, val) in adds:
+                r.site(sp, n.ast, "read-only share")
+                loops = enclosing_for(sp, n.ast)
+                pv = loops[0].target.id if loops and isinstance(loops[0].target, ast.Name) else None
+                okf = len(loops) == 2 and pv is not None and norm_plain(val) == norm_plain(loops[1].target) \
+                    and norm_plain(unwrap(loops[1].iter)) == "%s[%s]" % (P2S, pv)
+                r.require(okf, sp, sp.loc(n.ast), "phase-1 share set is not filled from %s[peer]" % P2S)
+                if pv:
+                    for (t, w) in find_path_avoiding(
+                            scfg, lambda x, _n=n: x is _n,
+                            gate_edge=fact_gate(None, lambda op, l, rr, _p=pv: (op, l, rr) == ("in", _p, RO)),
+                            kill=lambda x, _p=pv: x.kind == "iter" and _p in node_stores(x)):
+                        r.violation(sp, sp.loc(t.ast), "a writable server's share enters the phase-1 share set", w)
+        # phases 2/3: peers argument rooted at the writable set, never containing RO
+        for (k, (n, c, t)) in ((2, phases[1]), (3, phases[2])):
+            r.site(sp, c, "phase %d peers" % k)
+            a0 = arg(c, 0, "peers")
+            b, m = chain_x(n, a0) if a0 is not None else ("?", frozenset())
+            r.require(b == P, sp, sp.loc(c), "phase %d matches the server set %s; it must be derived from the writable "
+                      "servers `%s` by removing servers only" % (k, b, P))
+        # homeless distribution
+        dh = [n for n in scfg.nodes if calls_at(n, "_distribute_homeless_shares")]
+        if len(dh) != 1:
+            raise AnchorVanished("share_placement: _distribute_homeless_shares call")
+        cdh = calls_at(dh[0], "_distribute_homeless_shares")[0]
+        r.site(sp, cdh, "homeless distribution servermap")
+        a2 = arg(cdh, 2, "peers_to_shares")
+        a2 = sl.unique_def(dh[0], a2.id)[1] if isinstance(a2, ast.Name) else a2
+        okd = False
+        if isinstance(a2, ast.DictComp) and len(a2.generators) == 1:
+            gen = a2.generators[0]
+            base_e, view = unwrap_view(gen.iter)
+            if view == "items" and norm_plain(base_e) == P2S and isinstance(gen.target, ast.Tuple) and len(gen.target.elts) == 2:
+                kx, vx = [norm_plain(e) for e in gen.target.elts]
+                guards = {Normaliser(Env(None, depth=0)).cmp(i, True) for i in gen.ifs}
+                okd = norm_plain(a2.key) == kx and norm_plain(unwrap(a2.value)) == vx and ("not in", kx, RO) in guards
+        r.require(okd, sp, sp.loc(cdh), "_distribute_homeless_shares must get {k: v for k, v in %s.items() if k not in %s}; "
+                  "got %s" % (P2S, RO, src(sp, a2)))
+        # round robin
+        rets = [n for n in scfg.find(is_return) if isinstance(n.ast.value, ast.DictComp)]
+        if len(rets) != 1:
+            raise AnchorVanished("share_placement: final dict comprehension")
+        nexts = [x for x in own_nodes(rets[0].ast.value) if isinstance(x, ast.Call) and call_tail(x) == "next"]
+        r.site(sp, rets[0].ast, "round-robin source")
+        okr = False
+        if len(nexts) == 1 and nexts[0].args and isinstance(nexts[0].args[0], ast.Name):
+            dn, v = sl.unique_def(rets[0], nexts[0].args[0].id)
+            if isinstance(v, ast.Call) and isinstance(v.func, ast.Name) and v.func.id in sp.nested and len(v.args) == 1:
+                gen_fn = sp.nested[v.func.id]
+                gp = first_positional_params(gen_fn)[0]
+                ys = [x for x in func_own_nodes(gen_fn) if isinstance(x, ast.Yield)]
+                fl_ = [x for x in func_own_nodes(gen_fn) if isinstance(x, ast.For)]
+                gen_ok = len(ys) == 1 and len(fl_) == 1 and norm_plain(unwrap(fl_[0].iter)) == gp \
+                    and ys[0].value is not None and norm_plain(ys[0].value) == norm_plain(fl_[0].target)
+                b, m = sl.chain(dn, v.args[0])
+                okr = gen_ok and b == P and RO in m
+                if gen_ok and not okr:
+                    r.violation(sp, sp.loc(v), "the round-robin for don't-care shares draws from %s; it must draw from "
+                                "%s - %s" % (src(sp, v.args[0]), P, RO))
+                    okr = True
+        r.require(okr, sp, sp.loc(rets[0].ast), "don't-care shares are not taken from a round-robin over %s - %s" % (P, RO))
+        # _distribute_homeless_shares places only on keys of its servermap
+        dfn = idx.func(HU + ":_distribute_homeless_shares")
+        DM, DH, DP = first_positional_params(dfn)[:3]
+        dcfg = dfn.cfg()
+        dst = [(n, key, val) for n in dcfg.stmt_nodes() for (_k, key, val) in container_stores(n, DM)]
+        if len(dst) < 2:
+            raise AnchorVanished("_distribute_homeless_shares: stores into %s" % DM)
+        dfl = Flow(dfn)
+        for (n, key, val) in dst:
+            r.site(dfn, n.ast, "homeless placement")
+            dep = _closure(dfn, dfl, n, val)
+            r.require(DP in dep and DH not in dep, dfn, dfn.loc(n.ast),
+                      "a homeless share is placed on %s, which is not drawn from the keys of %s" % (src(dfn, val), DP))
+            loops = [l for l in enclosing_for(dfn, n.ast) if norm_plain(unwrap_view(l.iter)[0]) == DP]
+            if loops:
+                pv = norm_plain(loops[-1].target)
+                kx = norm_plain(key)
+                for (t, w) in find_path_avoiding(
+                        dcfg, lambda x, _n=n: x is _n,
+                        gate_edge=fact_gate(None, lambda op, l, rr: (op, l, rr) == ("in", kx, "%s[%s]" % (DP, pv))),
+                        kill=lambda x, _h=iter_node(dcfg, loops[-1]): x is _h):
+                    r.violation(dfn, dfn.loc(t.ast), "a lease is 'renewed' on server %s without checking that it holds "
+                                "share %s" % (pv, kx), w)
+        # PeerSelector
+        ps = idx.cls(UP + ":PeerSelector")
+        mr = idx.func(UP + ":PeerSelector.mark_readonly_peer")
+        pid = first_positional_params(mr)[0]
+        adds = [c for c in calls_in_func(mr, "add") if call_name(c) == "self.readonly_peers.add"
+                and [norm_plain(a) for a in c.args] == [pid]]
+        rems = [c for c in list(calls_in_func(mr, "remove")) + list(calls_in_func(mr, "discard"))
+                if call_name(c) in ("self.peers.remove", "self.peers.discard") and [norm_plain(a) for a in c.args] == [pid]]
+        r.site(mr, None, "mark_readonly_peer")
+        r.require(bool(adds) and bool(rems), mr, mr.loc(), "mark_readonly_peer must add the server to readonly_peers and "
+                  "remove it from peers (a read-only server left in the writable set gets new shares)")
+        gp_ = idx.func(UP + ":PeerSelector.get_share_placements")
+        cs = calls_in_func(gp_, "share_placement")
+        if len(cs) != 1:
+            raise AnchorVanished("get_share_placements: share_placement call")
+        r.site(gp_, cs[0], "share_placement call")
+        gl = Flow(gp_)
+        gn = gl.node_of(cs[0])
+        args = [gl.origin(gn, a) for a in cs[0].args]
+        r.require(args == ["self.peers", "self.readonly_peers", "set(range(self.total_shares))", "self.existing_shares"]
+                  and not cs[0].keywords, gp_, gp_.loc(cs[0]),
+                  "share_placement is called with (%s); expected (self.peers, self.readonly_peers, "
+                  "set(range(self.total_shares)), self.existing_shares)" % ", ".join(args))
+
+    # ------------------------------------------------------------------ 4
+    with ctx.rule("C07.4", "R3", "completeness and phase algebra of share_placement: result over every key of the merge "
+                  "readonly+existing+new, empty values replaced, phase 2/3 shares = shares - used [- existing], ids from "
+                  "_extract_ids of the previous phase", expected=7) as r:
+        need_phases()
+        (n1, c1, t1), (n2, c2, t2), (n3, c3, t3) = phases
+        rets = [n for n in scfg.find(is_return) if isinstance(n.ast.value, ast.DictComp)]
+        if len(rets) != 1:
+            raise AnchorVanished("share_placement: final dict comprehension")
+        dc = rets[0].ast.value
+        r.site(sp, dc, "result comprehension")
+        merged = None
+        okc = False
+        if len(dc.generators) == 1 and not dc.generators[0].ifs:
+            gen = dc.generators[0]
+            base_e, view = unwrap_view(gen.iter)
+            if view == "items" and isinstance(base_e, ast.Name) and isinstance(gen.target, ast.Tuple) and len(gen.target.elts) == 2:
+                merged = base_e.id
+                kx, vx = [norm_plain(e) for e in gen.target.elts]
+                v = dc.value
+                okc = norm_plain(dc.key) == kx and isinstance(v, ast.IfExp) and norm_plain(v.test) == vx \
+                    and norm_plain(v.body) in ("%s.pop()" % vx, "next(iter(%s))" % vx) \
+                    and isinstance(v.orelse, ast.Call) and call_tail(v.orelse) == "next"
+        r.require(okc, sp, sp.loc(dc), "the result must be {k: v.pop() if v else next(<round robin>) for k, v in "
+                  "mappings.items()} - every share keeps a key and every empty/None value is replaced; got %s" % src(sp, dc))
+        # merge order
+        if merged:
+            dn, v = sl.unique_def(rets[0], merged)
+            r.site(sp, v, "merge of the three phases")
+            parts = []
+
+            def flat(e):
+                if isinstance(e, ast.BinOp) and isinstance(e.op, ast.Add):
+                    flat(e.left)
+                    flat(e.right)
+                else:
+                    b, view = unwrap_view(e)
+                    parts.append(b.id if (view == "items" and isinstance(b, ast.Name)) else "?")
+            if isinstance(v, ast.Call) and call_tail(v) == "dict" and len(v.args) == 1:
+                flat(v.args[0])
+            elif isinstance(v, ast.Dict) and all(k is None for k in v.keys):
+                parts = [x.id if isinstance(x, ast.Name) else "?" for x in v.values]
+            r.require(parts == [t1, t2, t3], sp, sp.loc(v) if v is not None else sp.loc(),
+                      "the phases are merged as %s; expected %s then %s then %s (a later phase's placement must override "
+                      "the None an earlier phase left for the same share)" % (parts, t1, t2, t3))
+        # phase share arguments
+        for (k, (n, c, t), want) in ((2, phases[1], {ids_of(t1, 1)}), (3, phases[2], {ids_of(t1, 1), ids_of(t2, 1)})):
+            r.site(sp, c, "phase %d shares" % k)
+            a1 = arg(c, 1, "shares")
+            b, m = chain_x(n, a1) if a1 is not None else ("?", frozenset())
+            r.require(b == SH and set(m) == want, sp, sp.loc(c),
+                      "phase %d matches the shares %s - {%s}; expected %s - {%s}" % (
+                          k, b, ", ".join(sorted(m)), SH, ", ".join(sorted(want))))
+        # phase 3 peers lose exactly the matched servers; phase 2 the read-only-matched ones
+        for (k, (n, c, t), want) in ((2, phases[1], {ids_of(t1, 0)}), (3, phases[2], {ids_of(t1, 0), ids_of(t2, 0)})):
+            a0 = arg(c, 0, "peers")
+            b, m = chain_x(n, a0) if a0 is not None else ("?", frozenset())
+            r.require(want <= set(m) if k == 3 else set(m) <= want, sp, sp.loc(c),
+                      "phase %d servers are %s - {%s}; expected the subtrahends {%s}" % (
+                          k, b, ", ".join(sorted(m)), ", ".join(sorted(want))))
+        # phase 2 servermap is the existing-share map
+        r.site(sp, c2, "phase 2 servermap")
+        sm2 = kwarg(c2, "servermap") or arg(c2, 2)
+        o = sl.origin(n2, sm2) if sm2 is not None else "None"
+        r.require(o in ("%s.copy()" % P2S, "dict(%s)" % P2S, P2S), sp, sp.loc(c2),
+                  "phase 2 must preserve existing allocations: servermap argument is %s, expected a copy of %s" % (o, P2S))
+        r.require(kwarg(c3, "servermap") is None and len(c3.args) == 2, sp, sp.loc(c3),
+                  "phase 3 places new shares on any remaining writable server and takes no servermap")
+        # homeless set
+        dh = [n for n in scfg.nodes if calls_at(n, "_distribute_homeless_shares")]
+        cdh = calls_at(dh[0], "_distribute_homeless_shares")[0]
+        r.site(sp, cdh, "homeless set")
+        hs = arg(cdh, 1, "homeless_shares")
+        okh = merged is not None and norm_plain(arg(cdh, 0, "mappings")) == merged and isinstance(hs, ast.Name)
+        if okh:
+            hadds = [(n, val) for n in scfg.stmt_nodes() for (_k, _key, val) in container_stores(n, hs.id)]
+            okh = len(hadds) == 1
+            if okh:
+                hn, hv = hadds[0]
+                loops = enclosing_for(sp, hn.ast)
+                okh = len(loops) == 1 and norm_plain(unwrap_view(loops[0].iter)[0]) == merged \
+                    and norm_plain(hv) == norm_plain(loops[0].target)
+                kvn = norm_plain(loops[0].target) if loops else "?"
+                # every None-valued key is added: an iteration may skip the add only past `mappings[k] is not None`
+                if loops:
+                    head = iter_node(scfg, loops[0])
+                    mk = "%s[%s]" % (merged, kvn)
+
+                    def not_none_edge(op, l, rr, _mk=mk):
+                        return (op in ("is not", "!=") and {l, rr} == {"None", _mk}) or (op == "truth" and l == _mk)
+                    w = body_skips(scfg, head, lambda x: x is hn, gate_edge=fact_gate(None, not_none_edge))
+                    if w:
+                        r.violation(sp, sp.loc(hn.ast), "a share whose mapping is None can be left out of the homeless set",
+                                    ["L%d %r" % (scfg.nodes[i_].lineno, scfg.nodes[i_]) for i_ in w])
+                    for (t, w2) in find_path_avoiding(
+                            scfg, lambda x: x is hn,
+                            gate_edge=fact_gate(None, lambda op, l, rr, _mk=mk: (op in ("is", "==") and {l, rr} == {"None", _mk})
+                                                or (op == "false" and l == _mk)),
+                            kill=lambda x: x is head):
+                        r.violation(sp, sp.loc(t.ast), "a share that already has a server is declared homeless", w2)
+        r.require(okh, sp, sp.loc(cdh), "_distribute_homeless_shares must get the merged mappings and the set of its "
+                  "None-valued keys")
+        # _extract_ids
+        ex = idx.func(HU + ":_extract_ids")
+        EM = first_positional_params(ex)[0]
+        r.site(ex, None, "_extract_ids")
+        ert = [n for n in ex.cfg().find(is_return) if isinstance(n.ast.value, ast.Tuple) and len(n.ast.value.elts) == 2
+               and all(isinstance(e, ast.Name) for e in n.ast.value.elts)]
+        if len(ert) != 1:
+            raise AnchorVanished("_extract_ids returns (peers, shares)")
+        pe, she = [e.id for e in ert[0].ast.value.elts]
+        ecfg = ex.cfg()
+        sadd = [(n, v) for n in ecfg.stmt_nodes() for (_k, _key, v) in container_stores(n, she)]
+        padd = [(n, v) for n in ecfg.stmt_nodes() for (_k, _key, v) in container_stores(n, pe)]
+        oke = len(sadd) == 1 and len(padd) == 1
+        if oke:
+            l1 = enclosing_for(ex, sadd[0][0].ast)
+            l2 = enclosing_for(ex, padd[0][0].ast)
+            oke = len(l1) == 1 and norm_plain(unwrap_view(l1[0].iter)[0]) == EM and norm_plain(sadd[0][1]) == norm_plain(l1[0].target) \
+                and len(l2) == 2 and norm_plain(padd[0][1]) == norm_plain(l2[1].target) \
+                and norm_plain(l2[1].iter) == "%s[%s]" % (EM, norm_plain(l1[0].target))
+            kvn = norm_plain(l1[0].target) if l1 else "?"
+            # matched (non-None) entries always reach the share add; None entries never do
+            if l1:
+                mk = "%s[%s]" % (EM, kvn)
+
+                def is_none(op, l, rr):
+                    return (op in ("==", "is") and {l, rr} == {"None", mk}) or (op == "false" and l == mk)
+
+                def not_none(op, l, rr):
+                    return (op in ("!=", "is not") and {l, rr} == {"None", mk}) or (op == "truth" and l == mk)
+                h1 = iter_node(ecfg, l1[0])
+                for (t, w) in find_path_avoiding(ecfg, lambda x: x is sadd[0][0] or x is padd[0][0],
+                                                 gate_edge=fact_gate(None, not_none), kill=lambda x: x is h1):
+                    r.violation(ex, ex.loc(t.ast), "_extract_ids counts an unmatched (None) share as used", w)
+                w = body_skips(ecfg, h1, lambda x: x is sadd[0][0], gate_edge=fact_gate(None, is_none))
+                if w:
+                    r.violation(ex, ex.loc(sadd[0][0].ast), "_extract_ids can skip a matched share",
+                                ["L%d %r" % (ecfg.nodes[i_].lineno, ecfg.nodes[i_]) for i_ in w])
+        r.require(oke, ex, ex.loc(), "_extract_ids must return (servers, shares) of the entries whose value is not None")
+        # callers unpack in this order
+        for (k, tgt) in ((1, t1), (2, t2)):
+            ok = False
+            for x in func_own_nodes(sp):
+                if isinstance(x, ast.Assign) and isinstance(x.value, ast.Call) and call_tail(x.value) == "_extract_ids" \
+                        and [norm_plain(a) for a in x.value.args] == [tgt]:
+                    ok = True
+            r.require(ok, sp, sp.loc(), "the ids matched in phase %d are not extracted from %s" % (k, tgt))
+
+    # ------------------------------------------------------------------ 5
+    with ctx.rule("C07.5", "R3", "spread: every writable server that phases 1/2 left unmatched is a candidate of phase 3 - "
+                  "the candidate set loses servers only by subtracting the matched ids", expected=2) as r:
+        need_phases()
+        flagged = set()
+        for (k, (n, c, t)) in ((3, phases[2]), (2, phases[1])):
+            a0 = arg(c, 0, "peers")
+            r.site(sp, c, "phase %d candidate servers" % k)
+            # every name on the definition chain of the argument
+            seen = []
+            e, at = a0, n
+            depth = 0
+            while depth < 8:
+                depth += 1
+                e = unwrap(e, tails=("set", "frozenset"))
+                while isinstance(e, ast.BinOp) and isinstance(e.op, ast.Sub):
+                    e = unwrap(e.left, tails=("set", "frozenset"))
+                if not isinstance(e, ast.Name):
+                    break
+                dn, v = sl.unique_def(at, e.id)
+                if v is None:
+                    break
+                seen.append((e.id, dn, at))
+                e, at = v, dn
+            for (nm, dn, use) in seen:
+                for m in scfg.stmt_nodes():
+                    if not (reach_from(scfg, dn, m) and reach_from(scfg, m, use)):
+                        continue
+                    for x in [y for ee in node_exprs(m) for y in own_nodes(ee)]:
+                        if isinstance(x, ast.Call) and isinstance(x.func, ast.Attribute) and isinstance(x.func.value, ast.Name) \
+                                and x.func.value.id == nm and x.func.attr in (
+                                    "remove", "discard", "pop", "clear", "difference_update", "intersection_update") \
+                                and id(x) not in flagged:
+                            flagged.add(id(x))
+                            r.violation(sp, sp.loc(m.ast), "writable server removed from the candidate set `%s` by %s before "
+                                        "phase %d: a server whose existing shares were all matched elsewhere can no longer "
+                                        "receive new shares, so the spread is not maximal" % (nm, src(sp, x), k))
+                        if isinstance(x, ast.Call) and isinstance(x.func, ast.Attribute) and isinstance(x.func.value, ast.Name) \
+                                and x.func.value.id == nm and x.func.attr in ("add", "update") and id(x) not in flagged:
+                            flagged.add(id(x))
+                            r.violation(sp, sp.loc(m.ast), "server added to the candidate set `%s` by %s" % (nm, src(sp, x)))
+
+
+def reach_from_within(cfg, a, b, head) -> bool:
+    """b reachable from a without passing the loop head."""
+    seen = set()
+    work = [d for (d, _l) in cfg.succ[a.id]]
+    while work:
+        x = work.pop()
+        if x == b.id:
+            return True
+        if x in seen or x == head.id:
+            continue
+        seen.add(x)
+        work.extend(d for (d, _l) in cfg.succ[x])
+    return False
+
+
+def _closure(fn, fl, n, e, depth=10):
+    """Names the value of e (evaluated at node n) may come from: the first hops follow the unique reaching
+    definition (names are re-used in this function), the rest is the flow-insensitive def-use closure in
+    which subscript *keys* do not flow into the container and queue put/get are container insertions."""
+    for _ in range(4):
+        roots = [x for x in own_nodes(e) if isinstance(x, ast.Name) and isinstance(x.ctx, ast.Load)]
+        funcs = {id(c.func) for c in own_nodes(e) if isinstance(c, ast.Call)}
+        roots = [x for x in roots if id(x) not in funcs]
+        if len(roots) != 1:
+            break
+        dn, v = fl.unique_def(n, roots[0].id)
+        if v is None or fresh_mutable(v) or not [x for x in own_nodes(v) if isinstance(x, ast.Name)
+                                                 and not (isinstance(v, ast.Call) and x is v.func)]:
+            break
+        n, e = dn, v
+    defs = {}
+
+    def bind(t, v):
+        if isinstance(t, ast.Name):
+            defs.setdefault(t.id, []).append(v)
+        elif isinstance(t, (ast.Tuple, ast.List)):
+            for tt in t.elts:
+                bind(tt, v)
+        elif isinstance(t, ast.Subscript):
+            pth = attr_path(t.value)
+            if pth:
+                defs.setdefault(pth, []).append(v)
+    for x in func_own_nodes(fn):
+        if isinstance(x, ast.Assign):
+            for t in x.targets:
+                bind(t, x.value)
+        elif isinstance(x, ast.AugAssign):
+            bind(x.target, x.value)
+        elif isinstance(x, (ast.For, ast.comprehension)):
+            bind(x.target, x.iter)
+        elif isinstance(x, ast.Call) and isinstance(x.func, ast.Attribute) and isinstance(x.func.value, ast.Name) \
+                and x.func.attr in ("append", "add", "update", "extend", "insert", "setdefault", "put", "put_nowait"):
+            for a in x.args:
+                defs.setdefault(x.func.value.id, []).append(a)
+    return depends_on(fn, e, depth=depth, defs=defs)
